@@ -25,8 +25,13 @@
              reaching it                                     (MomentFire_Gen)
    3. REPLAY each schedule runs on the real schedule/farm code, then drains and
              advances a week and a month with the monitors on
-   4. TRACE  FireTargets, BootFires, BootOnce, Armed, Recurs, Once on every
-             step, per node
+   4. TRACE  FireTargets, BootFires, BootOnce, Armed, Recurs, Once, CatchUp on
+             every step, per node
+   5. LATE   the environment may run a wake-up later than the firing window
+             (LateTick, also in 2.) and, in a guided instance that starts 8
+             minutes before a moment, hold the pipeline (Pause / Unpause: the
+             passes only poll) while the clock moves past the moment: no
+             occurrence is skipped while the pipeline stays up (CatchUp)
                                                             (MomentFire_Trace)
 Python only materialises TLC's choices, projects, counts and reports.
 '''
@@ -205,27 +210,27 @@ def replay_a(chk, pid, rnd, domain, ndays, nextra):
 # --------------------------------------------------------------------- part (b)
 def consts_b(configs, maxenv, fire=FIRE):
     if configs is None:  # trace validation: the configuration comes from the trace
-        return {'Variant': q(VARIANT), 'Fire': q(fire), 'Configs': '{}', 'MaxEnv': str(maxenv), 'Jumps': '{}'}
-    return {'Variant': q(VARIANT), 'Fire': q(fire), 'Configs': '<- ' + configs, 'MaxEnv': str(maxenv), 'Jumps': '<- JumpsStd'}
+        return {'Variant': q(VARIANT), 'Fire': q(fire), 'Configs': '{}', 'MaxEnv': str(maxenv), 'Jumps': '{}', 'LateJumps': '{}', 'Lates': '{}'}
+    return {'Variant': q(VARIANT), 'Fire': q(fire), 'Configs': '<- ' + configs, 'MaxEnv': str(maxenv), 'Jumps': '<- JumpsStd', 'LateJumps': '<- JumpsLate', 'Lates': '<- LatesStd'}
 
 
 if FIRE == 'pinned':  # the model of finding 11: Armed / Recurs only up to the recorded signature
     PROPS_B = dict(invariants=['TypeOK', 'C20_ArmedOrKnown'], properties=['C20_FireTargets', 'C20_BootFires', 'C20_BootOnce', 'C20_RecursOrKnown', 'C20_Once'])
 else:
-    PROPS_B = dict(invariants=['TypeOK', 'C20_Armed'], properties=['C20_FireTargets', 'C20_BootFires', 'C20_BootOnce', 'C20_Recurs', 'C20_Once'])
+    PROPS_B = dict(invariants=['TypeOK', 'C20_Armed'], properties=['C20_FireTargets', 'C20_BootFires', 'C20_BootOnce', 'C20_Recurs', 'C20_Once', 'C20_CatchUp'])
 
 
-def gen_b(chk, maxenv):
+def gen_b(chk, maxenv, name='genB'):
     '''one TLC run: checks the invariants / action properties of the bounded instance AND prints every transition'''
-    cfg = os.path.join(chk.work, 'genB.cfg')
+    cfg = os.path.join(chk.work, name + '.cfg')
     tlc.write_cfg(cfg, spec='GenSpec', constants=consts_b('ConfigsAll', maxenv), extra=['VIEW View', 'ACTION_CONSTRAINT Emit'], **PROPS_B)
-    res = tlc.run('MomentFire_Gen.tla', cfg, workers=1, timeout=1800, out_file=os.path.join(chk.work, 'genB.out'))
+    res = tlc.run('MomentFire_Gen.tla', cfg, workers=1, timeout=1800, out_file=os.path.join(chk.work, name + '.out'))
     if not res.ok:
-        raise core.Machinery(f'MomentFire_Gen failed: {res.error or res.violated} (see {chk.work}/genB.out)')
-    chk.mc_runs.append(dict(res.summary(), name='genB', module='MomentFire_Gen.tla', invariants=PROPS_B['invariants'] + PROPS_B['properties']))
+        raise core.Machinery(f'MomentFire_Gen failed: {res.error or res.violated} (see {chk.work}/{name}.out)')
+    chk.mc_runs.append(dict(res.summary(), name=name, module='MomentFire_Gen.tla', invariants=PROPS_B['invariants'] + PROPS_B['properties']))
     chk.states += res.distinct
     chk.transitions += res.generated
-    chk.note(f'gen genB: {res.distinct} distinct / {res.generated} generated, ok={res.ok}, {res.wall:.1f}s')
+    chk.note(f'gen {name}: {res.distinct} distinct / {res.generated} generated, ok={res.ok}, {res.wall:.1f}s')
     return [json.loads(r[1]) for r in tlc.printed(res, 'SCHED')]
 
 
@@ -261,7 +266,10 @@ def collect_b(chk, pid, jobs, files):
         'MomentFire_Trace.tla',
         dict(spec='TraceSpec', constants=consts_b(None, 1000000), extra=['POSTCONDITION AllConsumed']),
         files,
+        tags=('CLAUSE', 'DRIFT', 'CONSUMED', 'LATEFIRE'),
     )
+    # firings TLC found to come more than the window after their moment (the antecedent of C20.CatchUp is met and answered)
+    chk.counters['firings_later_than_the_window'] = chk.counters.get('firings_later_than_the_window', 0) + len(rows['LATEFIRE'])
     byid = {j['id']: j for j in jobs}
     need = {r[1] for r in rows['CLAUSE']} | {r[1] for r in rows['DRIFT'][:5]}
     traces = {}
@@ -315,24 +323,46 @@ def part_b(chk, pid, thorough, rnd, epoch, days):
                 raise core.Machinery(f'{name}: expected a counterexample of {inv} (the model cannot tell the two defer variants apart)')
             chk.states -= known.distinct
             chk.transitions -= known.generated
-    return replay_b(chk, pid, rnd, epoch, days, None if thorough else 1000, 3 if thorough else 2)
+        # ... and the guided configurations do reach a firing later than the window (C20_CatchUp is not vacuous in the model)
+        wit = chk.mc('mcB_latefire', 'MomentFire_MC.tla', dict(spec='FSpec', constants=consts_b('ConfigsLate', 3), invariants=['NoLateFiring']), workers=2, expect_ok=False)
+        if wit.ok:
+            raise core.Machinery('mcB_latefire: the guided instance never fires later than the window after a moment')
+        chk.states -= wit.distinct
+        chk.transitions -= wit.generated
+    return replay_b(chk, pid, rnd, epoch, days, None if thorough else 1000, 3 if thorough else 2, nlate=150)
 
 
-def replay_b(chk, pid, rnd, epoch, days, nsample, maxenv=2):
+def replay_b(chk, pid, rnd, epoch, days, nsample, maxenv=2, nlate=0):
+    '''nlate: how many schedules of the guided configurations (cfg.late: a moment passes while defer() cannot act -- held
+    pipeline whose passes only poll, wake-up 10 minutes late) a sampled run replays on top of nsample'''
     scheds = gen_b(chk, maxenv)
     total = len(scheds)
+    guided = [s for s in scheds if s['cfg']['late'] and any(h['ev'] in ('Pause', 'LateTick') for h in s['h'])]
     if nsample is not None:
         # the start of the pipeline of EVERY configuration, plus a seeded sample of the longer schedules
         first = [s for s in scheds if len(s['h']) == 1]
-        rest = [s for s in scheds if len(s['h']) > 1]
+        rest = [s for s in scheds if len(s['h']) > 1 and not s['cfg']['late']]
         rnd.shuffle(rest)
-        scheds = first + rest[:nsample]
+        # guided: the longest histories first (release after the moment), seeded order among equals
+        rnd.shuffle(guided)
+        guided.sort(key=lambda s: -len(s['h']))
+        guided = guided[:nlate]
+        scheds = first + rest[:nsample] + guided
     jobs = fire_jobs(scheds, epoch, days)
     files = chk.run_harness('moment_h', jobs)
     chk.traces += len(jobs)
     fires, completes, refires, nontrivial, two = collect_b(chk, pid, jobs, files)
     if fires == 0 or completes == 0 or two == 0:
         raise core.Machinery(f'vacuous firing replay: fires={fires} completions={completes} two-node schedules={two}')
+    if guided:
+        npause = sum(1 for s in guided if any(h['ev'] == 'Pause' for h in s['h']))
+        nlt = sum(1 for s in guided if any(h['ev'] == 'LateTick' for h in s['h']))
+        latef = chk.counters.get('firings_later_than_the_window', 0)
+        chk.counters.update(guided_schedules_replayed=len(guided), guided_schedules_with_a_held_pipeline=npause, guided_schedules_with_a_late_wakeup=nlt)
+        if not npause or not nlt:
+            raise core.Machinery(f'vacuous late-pass replay: held={npause} late wake-ups={nlt}')
+        if latef == 0 and not chk.violations:
+            raise core.Machinery('vacuous late-pass replay: no firing later than the window after its moment was observed')
     shared = sum(
         1
         for j in jobs
